@@ -244,7 +244,7 @@ class InputDataStorage:
                 for f in range(len(current_sample)):
                     fname = current_sample[f]
                     if names:
-                        readable_name = sample['labels'][f]
+                        readable_name = str(sample['labels'][f])
                     else:
                         readable_name = os.path.splitext(os.path.basename(fname))[0]
                     if fname in readable_names_dict[current_sample_name]:
